@@ -154,8 +154,8 @@ func (p *pipeNet) Broadcast(m *pb.Message) error {
 }
 
 const raftToml = `[timed_gen_block]
-enable = false
-block_timeout = "2s"
+enable = %v
+block_timeout = "0.08s"
 
 [raft]
 batch_timeout               = "0.03s"
@@ -180,8 +180,8 @@ disable_proposal_forwarding = true
 `
 
 const soloToml = `[timed_gen_block]
-enable = false
-block_timeout = "2s"
+enable = %v
+block_timeout = "0.08s"
 
 [solo]
 batch_timeout          = "0.03s"
@@ -211,13 +211,14 @@ func ordNode(args []string) int {
 	fetch := fs.Int("fetch", 3, "")
 	snapc := fs.Int("snap", 5, "")
 	inc := fs.Int("inc", 0, "incarnation")
+	timed := fs.Bool("timed", false, "timed block generation (empty blocks allowed)")
 	killAfter := fs.Int("kill-after-deliveries", 0, "SIGKILL itself at VERIF_ORD_KILL point on the n-th delivery of this incarnation")
 	fs.Parse(args)
 	os.MkdirAll(*dir, 0755)
 	if *typ == "raft" {
-		ioutil.WriteFile(filepath.Join(*dir, "order.toml"), []byte(fmt.Sprintf(raftToml, *batch, *fetch, *snapc)), 0644)
+		ioutil.WriteFile(filepath.Join(*dir, "order.toml"), []byte(fmt.Sprintf(raftToml, *timed, *batch, *fetch, *snapc)), 0644)
 	} else {
-		ioutil.WriteFile(filepath.Join(*dir, "order.toml"), []byte(fmt.Sprintf(soloToml, *batch)), 0644)
+		ioutil.WriteFile(filepath.Join(*dir, "order.toml"), []byte(fmt.Sprintf(soloToml, *timed, *batch)), 0644)
 	}
 	logPath := filepath.Join(*dir, "delivered.jsonl")
 	recs := readOrdLog(logPath)
